@@ -96,7 +96,10 @@ def strategy(ctx):
         elif mode == 'add':
             treat.append([draw(small), 'add', draw(small), draw(small), draw(small)])
         return {'spec': spec, 'mode': mode, 'treat': treat,
-                'raw': draw(st.lists(raw, min_size=8, max_size=8))}
+                'raw': draw(st.lists(raw, min_size=8, max_size=8)),
+                # cdef(..., packed=True) against a C source compiled under #pragma pack(1); applied
+                # only when no struct of the spec has a bitfield
+                'packed': draw(st.integers(0, 2)) == 0}
     return case()
 
 
@@ -582,7 +585,26 @@ def build_sources(case, items):
               'const char *verif_facts(void) {\n  verif_p = verif_buf; verif_buf[0] = 0;\n  '
               + '\n  '.join(body) + '\n  return verif_buf;\n}\n')
     cdef = '\n'.join(it['cdef'] for it in items) + '\n'
+    if use_packed(case):
+        # every struct/union of the C source (and the alias structs used to judge mutations) is laid
+        # out packed; system headers stay outside the pragma regions
+        lines = csrc.split('\n')
+        n = 0
+        while n < len(lines) and (lines[n].startswith('#include') or not lines[n].strip()):
+            n += 1
+        csrc = '\n'.join(lines[:n]) + '\n#pragma pack(push, 1)\n' + '\n'.join(lines[n:]) + '\n#pragma pack(pop)\n'
+        helper = helper.replace('\n#include <stdio.h>\n#include <string.h>\n',
+                                '\n#include <stdio.h>\n#include <string.h>\n#pragma pack(push, 1)\n', 1)
+        helper = helper.replace('\nstatic char verif_buf[1 << 17];', '\n#pragma pack(pop)\nstatic char verif_buf[1 << 17];', 1)
     return cdef, csrc + helper, calls
+
+
+def use_packed(case):
+    if not case.get('packed'):
+        return False
+    def has_bf(fields):
+        return any(b is not None or (t and t[0] == 'anon' and has_bf(t[2])) for _n, t, b in fields)
+    return not any(d['k'] == 'struct' and has_bf(d['fields']) for d in case['spec']['decls'])
 
 
 def parse_facts(text):
@@ -624,7 +646,11 @@ def prop(case, ctx):
     modname = 'c12m_%d_%d' % (os.getpid(), next(_modcount))
     ffi = cffi.FFI()
     try:
-        ffi.cdef(cdef)
+        if use_packed(case):
+            ctx.event('cdef(packed=True)')
+            ffi.cdef(cdef, packed=True)
+        else:
+            ffi.cdef(cdef)
     except Exception as e:
         ctx.fail('cdef() rejected a generated declaration list: %s: %s' % (type(e).__name__, e), cdef=cdef)
     ffi.set_source(modname, source)
